@@ -106,6 +106,8 @@ class Op(object):
           'stateful'  holds shared state by design (cache, sort caches, hash lookups, RNG)
           'notee'     excluded from C01 by the statement (tee*)
           'c02only'   only meaningful for the laziness check (unbounded output)
+          'presorted' presorted=True variant fed by the laziness check (c02only) and, as a plain view whose passes
+                      must agree whatever the input order, by C01
     zero: expected data rows for C20 when inputs have no data rows:
           'none' (default) | 'skip' | callable(tables) -> list of rows (multiset)
     """
@@ -521,12 +523,12 @@ op('frompickle(memory)', ['g'], lambda t: etl.frompickle(_mem(lambda s: etl.topi
 op('fromjson(memory)', ['g'], lambda t: etl.fromjson(_mem(lambda s: etl.tojson(t, s)), header=['k', 'v', 'x']), ('io',))
 # presorted merges stream their inputs (only the laziness check may feed them unsorted counting sources)
 op('mergesort(presorted,stream)', ['g', 'same'], lambda a, b: etl.mergesort(a, b, key='k', presorted=True),
-   ('stream:0', 'passall', 'c02only'), zero='skip')
+   ('stream:0', 'passall', 'c02only', 'presorted'), zero='skip')
 op('mergesort(presorted,key=None,stream)', ['g', 'same'], lambda a, b: etl.mergesort(a, b, presorted=True),
-   ('stream:0', 'passall', 'c02only'), zero='skip')
+   ('stream:0', 'passall', 'c02only', 'presorted'), zero='skip')
 # presorted=True turns the sort-backed operators into streaming ones (laziness check only: the counting
 # sources of kind dup / inc ARE sorted by k)
-PS = ('stream:0', 'passall', 'c02only')
+PS = ('stream:0', 'passall', 'c02only', 'presorted')
 for _nm, _f in [('join', etl.join), ('leftjoin', etl.leftjoin), ('rightjoin', etl.rightjoin),
                 ('outerjoin', etl.outerjoin), ('lookupjoin', etl.lookupjoin)]:
     op('%s(presorted,dupkeys,stream)' % _nm, ['dup', 'dup2'],
@@ -536,7 +538,7 @@ for _nm, _f in [('join', etl.join), ('leftjoin', etl.leftjoin), ('rightjoin', et
 op('antijoin(presorted,stream)', ['inc', 'dup2'], lambda a, b: etl.antijoin(a, b, key='k', presorted=True), PS, zero='skip')
 op('complement(presorted,stream)', ['inc', 'dup'], lambda a, b: etl.complement(a, b, presorted=True), PS, zero='skip')
 op('intersection(presorted,stream)', ['inc', 'inc'], lambda a, b: etl.intersection(a, b, presorted=True),
-   ('stream:0', 'c02only'), zero='skip')
+   ('stream:0', 'c02only', 'presorted'), zero='skip')
 op('rowreduce(presorted,stream)', ['inc'], lambda t: etl.rowreduce(t, 'k', _reducer, header=['k', 's'], presorted=True), PS, zero='skip')
 op('aggregate(len,presorted,stream)', ['inc'], lambda t: etl.aggregate(t, 'k', len, presorted=True), PS, zero='skip')
 op('aggregate(multi,presorted,stream)', ['inc'], lambda t: etl.aggregate(t, 'k', OrderedDict([('n', len), ('vs', ('v', list))]),
@@ -551,6 +553,8 @@ op('distinct(presorted,stream)', ['inc'], lambda t: etl.distinct(t, 'k', presort
 op('distinct(count,presorted,stream)', ['inc'], lambda t: etl.distinct(t, 'k', count='n', presorted=True), PS, zero='skip')
 op('unique(presorted,stream)', ['inc'], lambda t: etl.unique(t, 'k', presorted=True), PS, zero='skip')
 op('duplicates(presorted,dupkeys,stream)', ['dup'], lambda t: etl.duplicates(t, 'k', presorted=True), PS, zero='skip')
+op('merge(presorted,stream)', ['inc', 'inc2'], lambda a, b: etl.merge(a, b, key='k', presorted=True), PS, zero='skip')
+op('conflicts(presorted,dupkeys,stream)', ['dup'], lambda t: etl.conflicts(t, 'k', presorted=True), PS, zero='skip')
 op('unjoin(presorted,stream)[0]', ['inc'], lambda t: etl.unjoin(t, 'k', presorted=True)[0], PS, zero='skip')
 # ---- tee views (outside C01 by the statement; inside C02/C03/C20) --------------------------
 op('teetext(prologue,epilogue)', ['g'], lambda t, ctx: etl.teetext(
